@@ -487,8 +487,12 @@ def jobs_C08(tier, seed):
         for w in ('enum', 'eos'):
             jobs.append(('wrap_%s/%s' % (w, n), {'job': 'pair', 'match': 'contrib', 'model': s, 'model2': dict(s, wrap=w), 'x': x2(T, V)}, {'scale': False, 'budget_s': 600}))
     # pair 3: ePC-SAFT without ions vs PC-SAFT
-    for n, s in (('hc', pc), ('assoc', {'kind': 'pcsaft', 'src': src((P + 'gross2001.json', ['propane']), (P + 'gross2002.json', ['methanol']))})):
-        jobs.append(('epcsaft_vs_pcsaft/' + n, {'job': 'pair', 'match': 'contrib', 'model': s, 'model2': dict(s, kind='epcsaft'), 'x': x2(300.0, 1000.0)}, {'scale': False, 'budget_s': 600, 'merge_ulps': 8}))
+    # xassoc: two different self-associating components (cross-association strength between unlike sites, iterative site-fraction solver)
+    for n, s in (('hc', pc), ('assoc', {'kind': 'pcsaft', 'src': src((P + 'gross2001.json', ['propane']), (P + 'gross2002.json', ['methanol']))}),
+                 ('xassoc', {'kind': 'pcsaft', 'src': src((P + 'gross2002.json', ['methanol', '1-octanol'])), 'bin': {'k_ij': 0.015}})):
+        s2 = dict(s, kind='epcsaft')
+        if 'bin' in s: s2['bin'] = {'k_ij': [s['bin']['k_ij'], 0.0, 0.0, 0.0]}   # ePC-SAFT: polynomial in T, constant term only
+        jobs.append(('epcsaft_vs_pcsaft/' + n, {'job': 'pair', 'match': 'contrib', 'model': s, 'model2': s2, 'x': x2(300.0, 1000.0)}, {'scale': False, 'budget_s': 600, 'merge_ulps': 8}))
     # pair 4: SAFT-VRQ Mie, Feynman-Hibbs order 0, vs SAFT-VR Mie for monomers
     # pure monomer (for mixtures SAFT-VRQ Mie adds its non-additive hard-sphere correction by design); the two models
     # integrate the effective diameter with different quadratures: agreement is to ~3e-9, hence the tolerance
@@ -515,7 +519,12 @@ def jobs_C08(tier, seed):
 
 def jobs_C13(tier, seed):
     jobs = []
-    for name, spec, n, T, V in systems(tier, seed):
+    # association schemes beyond 2B (asymmetric site counts na != nb take the closed-form path with rhoa != rhob;
+    # 4C + 2B cross-association takes the iterative site-fraction solver at zero density)
+    extra = [('pcsaft_assoc3b', {'kind': 'pcsaft', 'src': src((P + 'gross2001.json', ['hexane']), (P + 'rehner2020.json', ['water_3B']))}, 2, 350.0, 1000.0),
+             ('pcsaft_3b_pure', {'kind': 'pcsaft', 'src': src((P + 'rehner2020.json', ['water_3B']))}, 1, 400.0, 1000.0),
+             ('pcsaft_xassoc', {'kind': 'pcsaft', 'src': src((P + 'rehner2020.json', ['water_4C', 'methanol']))}, 2, 350.0, 1000.0)]
+    for name, spec, n, T, V in systems(tier, seed) + extra:
         if 'fun' in name and tier == 'quick':
             continue
         if name.startswith('epcsaft'):
